@@ -249,4 +249,71 @@ def build (atoms : List (Nat × Atom)) : Option Tables :=
   let P := compile (addAtoms atoms)
   if P.ok then some { t := P.t, m := P.m, pool := P.A.pool } else none
 
+/-! ### specification of the reports: what the scan of a correct automaton delivers, IN ORDER
+
+  At every position `k` (0 … |buf|, the last one being the pass after the loop of `_yr_scanner_scan_mem_block`) the scanner
+  walks the match list of the current state: the atoms that end at `k`, LONGEST first, among atoms with the same bytes the
+  one inserted LAST first; zero-length atoms (root matches) come last, at every position. An entry is handed over only if
+  `backtrack ≤ k` (the `match->backtrack <= i` guard). -/
+
+/-- entries (0-based insertion numbers, newest first) of the atoms whose bytes are exactly `p` -/
+def ownIdx (atoms : List (Nat × Atom)) (p : Bytes) : List Nat :=
+  ((List.range atoms.length).filter fun e => decide ((atoms[e]?).map (fun a => a.2.bytes) = some p)).reverse
+
+/-- one pass over the atoms computing `ownIdx` (what the compiled driver runs; equal to `ownIdx` by `ownIdx_eq_fast`) -/
+def ownIdxFast (atoms : List (Nat × Atom)) (p : Bytes) : List Nat :=
+  (atoms.foldl (fun (st : Nat × List Nat) a => (st.1 + 1, if a.2.bytes = p then st.1 :: st.2 else st.2)) (0, [])).2
+
+theorem ownIdx_snoc' (atoms : List (Nat × Atom)) (a : Nat × Atom) (p : Bytes) :
+    ownIdx (atoms ++ [a]) p = if a.2.bytes = p then atoms.length :: ownIdx atoms p else ownIdx atoms p := by
+  unfold ownIdx
+  simp only [List.length_append, List.length_singleton, List.range_succ, List.filter_append, List.reverse_append]
+  have h1 : (List.filter (fun e => decide ((((atoms ++ [a])[e]?).map fun a => a.2.bytes) = some p)) (List.range atoms.length)) =
+      (List.filter (fun e => decide (((atoms[e]?).map fun a => a.2.bytes) = some p)) (List.range atoms.length)) := by
+    apply List.filter_congr
+    intro e he
+    rw [List.mem_range] at he
+    rw [List.getElem?_append_left he]
+  rw [h1]
+  by_cases h : a.2.bytes = p
+  · simp [h]
+  · simp [h]
+
+@[csimp] theorem ownIdx_eq_fast : @ownIdx = @ownIdxFast := by
+  funext atoms p
+  have key : ∀ (rest done : List (Nat × Atom)),
+      rest.foldl (fun (st : Nat × List Nat) a => (st.1 + 1, if a.2.bytes = p then st.1 :: st.2 else st.2)) (done.length, ownIdx done p) =
+        ((done ++ rest).length, ownIdx (done ++ rest) p) := by
+    intro rest
+    induction rest with
+    | nil => intro done; simp
+    | cons a r ih =>
+      intro done
+      have := ih (done ++ [a])
+      rw [ownIdx_snoc', List.length_append, List.length_singleton] at this
+      simpa [List.append_assoc] using this
+  have := key atoms []
+  unfold ownIdxFast
+  have h0 : ownIdx ([] : List (Nat × Atom)) p = [] := rfl
+  rw [List.length_nil, h0] at this
+  rw [this]; simp
+
+/-- entries of the atoms that are suffixes of `w`, longest first -/
+def specList (atoms : List (Nat × Atom)) : Bytes → List Nat
+  | [] => ownIdx atoms []
+  | c :: t => ownIdx atoms (c :: t) ++ specList atoms t
+
+/-- the candidate (string idx, offset, backtrack) entry `e` yields at position `n`, if it fits -/
+def candOf (atoms : List (Nat × Atom)) (n e : Nat) : Option (Nat × Nat × Nat) :=
+  match atoms[e]? with
+  | some a => if a.2.bytes.length + a.2.backtrack ≤ n then some (a.1, n - (a.2.bytes.length + a.2.backtrack), a.2.bytes.length + a.2.backtrack) else none
+  | none => none
+
+def expectedSeq (atoms : List (Nat × Atom)) (w : Bytes) : List (Nat × Nat × Nat) :=
+  (specList atoms w).filterMap (candOf atoms w.length)
+
+/-- the whole candidate sequence of a buffer, in arrival order -/
+def expectedScan (atoms : List (Nat × Atom)) (buf : Bytes) : List (Nat × Nat × Nat) :=
+  (List.range (buf.length + 1)).flatMap fun k => expectedSeq atoms (buf.take k)
+
 end YaraModel.AC.Build
